@@ -53,7 +53,7 @@ structure Good (cfg : Config) (W : List (String × TypeId)) (w : World) : Prop w
   mapper : ∀ p ∈ w.mapperCache, ∃ c e b, alookup c w.classes = some e ∧ p.1 = CKey.id c b ∧ p.2 = mapperOf e b
   simpl : ∀ p ∈ w.simplicityCache, ∃ c e, alookup c w.classes = some e ∧ p.1 = CKey.id c false ∧ p.2 = e.core.simple
   ser : ∀ c e, alookup c w.classes = some e → ∀ s, e.serializer = some s →
-    s.keys = canonKeys e ∧ (refsCreatable e = true → fastAble e = true)
+    s.keys = canonKeys e ∧ (refsCreatable cfg e = true → fastAble e = true)
 
 theorem good_initial (cfg : Config) (W : List (String × TypeId)) : Good cfg W World.initial :=
   ⟨by simp [World.initial], by simp [World.initial], by simp [World.initial],
@@ -124,47 +124,67 @@ theorem trustedOf_eq {cfg : Config} {W} {w : World} (hc : cfg.cachesById = true)
 
 /-! ### inside the region of the known finding `create_serializer` succeeds iff the class is statically fast-able -/
 
-theorem verify_snd (rec : World → ClassId → World) :
+theorem verify_snd (cfg : Config) (rec : World → ClassId → World) :
     ∀ (fs : List FieldSpec) (w : World),
-      (fs.all fun f => match f.kind with | .ref _ => f.fastOk | _ => true) = true →
-      (verifyFields rec w fs).2 = fs.all (·.fastOk)
+      (cfg.serializerViaMro = false ∨ (fs.all fun f => match f.kind with | .ref _ => f.fastOk | _ => true) = true) →
+      (verifyFields cfg rec w fs).2 = fs.all (·.fastOk)
   | [], _, _ => rfl
   | f :: fs, w, h => by
-    simp only [List.all_cons, Bool.and_eq_true] at h
+    have h' : cfg.serializerViaMro = false ∨ (fs.all fun f => match f.kind with | .ref _ => f.fastOk | _ => true) = true := by
+      rcases h with h | h
+      · exact Or.inl h
+      · simp only [List.all_cons, Bool.and_eq_true] at h; exact Or.inr h.2
     unfold verifyFields
     cases hk : f.kind with
     | ref b =>
-      have hf : f.fastOk = true := by simpa [hk] using h.1
-      simp only [hf, Bool.true_or, if_true, List.all_cons, Bool.true_and]
-      exact verify_snd rec fs _ h.2
+      simp only [List.all_cons]
+      cases hf : f.fastOk with
+      | true =>
+        simp only [Bool.true_or, if_true, Bool.true_and]
+        exact verify_snd cfg rec fs _ h'
+      | false =>
+        rcases h with h | h
+        · simp [h]
+        · simp only [List.all_cons, Bool.and_eq_true] at h
+          have := h.1
+          simp [hk, hf] at this
     | prim t =>
       simp only [List.all_cons]
       cases hf : f.fastOk with
-      | true => simp only [if_true, Bool.true_and]; exact verify_snd rec fs _ h.2
+      | true => simp only [if_true, Bool.true_and]; exact verify_snd cfg rec fs _ h'
       | false => simp
     | wrap n t =>
       simp only [List.all_cons]
       cases hf : f.fastOk with
-      | true => simp only [if_true, Bool.true_and]; exact verify_snd rec fs _ h.2
+      | true => simp only [if_true, Bool.true_and]; exact verify_snd cfg rec fs _ h'
       | false => simp
     | refs cs =>
       simp only [List.all_cons]
       cases hf : f.fastOk with
-      | true => simp only [if_true, Bool.true_and]; exact verify_snd rec fs _ h.2
+      | true => simp only [if_true, Bool.true_and]; exact verify_snd cfg rec fs _ h'
       | false => simp
 
+theorem refsCreatable_or {cfg : Config} {e : Entry} (hr : refsCreatable cfg e = true) :
+    cfg.serializerViaMro = false ∨
+      (e.core.fields.all fun f => match f.kind with | .ref _ => f.fastOk | _ => true) = true := by
+  unfold refsCreatable at hr
+  cases hm : cfg.serializerViaMro with
+  | false => exact Or.inl rfl
+  | true => simp only [hm, Bool.not_true, Bool.false_or] at hr; exact Or.inr hr
+
 theorem createW_snd {cfg : Config} (n : Nat) {w : World} {c : ClassId} {e : Entry} (fl : SerFlags)
-    (hl : alookup c w.classes = some e) (hr : refsCreatable e = true) :
+    (hl : alookup c w.classes = some e) (hr : refsCreatable cfg e = true) :
     (createW cfg (n + 1) w c fl).2 = fastAble e := by
   unfold createW
   simp only [hl]
-  have := verify_snd (fun w b => (createW cfg n w b .plain).1) e.core.fields (fillMapper cfg w c e) hr
+  have := verify_snd cfg (fun w b => (createW cfg n w b .plain).1) e.core.fields (fillMapper cfg w c e)
+    (refsCreatable_or hr)
   split
   · rename_i h; rw [this] at h; exact h.symm
   · rename_i h; rw [this] at h; simpa [fastAble] using h
 
 theorem creatableNow_eq {cfg : Config} {w : World} {c : ClassId} {e : Entry}
-    (hl : alookup c w.classes = some e) (hr : refsCreatable e = true) :
+    (hl : alookup c w.classes = some e) (hr : refsCreatable cfg e = true) :
     creatableNow cfg w c = fastAble e := createW_snd _ .plain hl hr
 
 /-! ### what a class does, as a function of stable parts and the current flags alone -/
@@ -223,7 +243,7 @@ theorem fastSerAt_eq {cfg : Config} {W} {w : World} (hc : cfg.cachesById = true)
 
 theorem behaviourOf_eq_ideal {cfg : Config} {W} {w : World} (hc : cfg.cachesById = true) (g : Good cfg W w)
     {c : ClassId} {e : Entry} (hl : alookup c w.classes = some e)
-    (hwf : e.core.src.fast = true → refsCreatable e = true) :
+    (hwf : e.core.src.fast = true → refsCreatable cfg e = true) :
     behaviourOf cfg w c e = idealBehaviour w.flags e.core e.required e.effFlags (lookS w) := by
   have h1 := serMapper_eq hc g hl false
   have h1c := serMapper_eq hc g hl true
@@ -260,7 +280,7 @@ theorem refSers_congr {look look' : ClassId → Option (Core × List String × S
 theorem view_eq_of_lookS {cfg : Config} {W} {w w' : World} (hc : cfg.cachesById = true)
     (g : Good cfg W w) (g' : Good cfg W w') (hf : w.flags = w'.flags) {c : ClassId}
     (hs : lookS w c = lookS w' c)
-    (hwf : ∀ e, alookup c w.classes = some e → e.core.src.fast = true → refsCreatable e = true)
+    (hwf : ∀ e, alookup c w.classes = some e → e.core.src.fast = true → refsCreatable cfg e = true)
     (hrefs : ∀ e, alookup c w.classes = some e → ∀ p ∈ refFields e.core.fields, lookS w p.2 = lookS w' p.2) :
     view cfg w c = view cfg w' c := by
   unfold view
@@ -278,7 +298,7 @@ theorem view_eq_of_lookS {cfg : Config} {W} {w w' : World} (hc : cfg.cachesById 
     | some e' =>
       rw [hl'] at hs
       simp only [Option.map_some, Option.some.injEq, Entry.stable, Prod.mk.injEq] at hs
-      have hwf' : e'.core.src.fast = true → refsCreatable e' = true := by
+      have hwf' : e'.core.src.fast = true → refsCreatable cfg e' = true := by
         intro h
         have := hwf e hl (by rw [hs.1]; exact h)
         simpa [refsCreatable, hs.1] using this
@@ -430,7 +450,7 @@ theorem canonKeys_core {e e' : Entry} (h : e'.core = e.core) : canonKeys e' = ca
     every OTHER class keeps its stable part -/
 theorem good_setEntry {cfg W} {w : World} (g : Good cfg W w) {c : ClassId} {e e' : Entry}
     (hl : alookup c w.classes = some e) (hcore : e'.core = e.core)
-    (hser : ∀ s, e'.serializer = some s → s.keys = canonKeys e' ∧ (refsCreatable e' = true → fastAble e' = true)) :
+    (hser : ∀ s, e'.serializer = some s → s.keys = canonKeys e' ∧ (refsCreatable cfg e' = true → fastAble e' = true)) :
     Good cfg W (setEntry w c e') ∧ (∀ d, c ≠ d → lookS (setEntry w c e') d = lookS w d)
       ∧ lookS (setEntry w c e') c = some e'.stable := by
   refine ⟨⟨g.reg, ?_, ?_, ?_⟩, ?_, ?_⟩
@@ -471,16 +491,20 @@ theorem resolveSer_none_own {w : World} {e : Entry} (h : (resolveSer w e).isNone
   | none => rfl
   | some s => simp [hs] at h
 
-theorem needsSer_own {w : World} {b : ClassId} (h : needsSer w b = true) :
+theorem needsSer_own {cfg : Config} {w : World} {b : ClassId} (h : needsSer cfg w b = true) :
     ∀ e, alookup b w.classes = some e → e.serializer = none := by
   intro e hl
   unfold needsSer at h
   simp only [hl, Bool.and_eq_true] at h
-  exact resolveSer_none_own h.2
+  cases hm : cfg.serializerViaMro with
+  | true => rw [hm] at h; exact resolveSer_none_own h.2
+  | false =>
+    rw [hm] at h
+    simpa using h.2
 
 theorem verify_pres {cfg W} (rec : World → ClassId → World)
-    (hrec : ∀ w b, Good cfg W w → needsSer w b = true → Pres cfg W w (rec w b)) :
-    ∀ (fs : List FieldSpec) (w : World), Good cfg W w → Pres cfg W w (verifyFields rec w fs).1
+    (hrec : ∀ w b, Good cfg W w → needsSer cfg w b = true → Pres cfg W w (rec w b)) :
+    ∀ (fs : List FieldSpec) (w : World), Good cfg W w → Pres cfg W w (verifyFields cfg rec w fs).1
   | [], _, g => pres_refl g
   | f :: fs, w, g => by
     unfold verifyFields
@@ -488,7 +512,7 @@ theorem verify_pres {cfg W} (rec : World → ClassId → World)
     | ref b =>
       simp only
       split
-      · cases hn : needsSer w b with
+      · cases hn : needsSer cfg w b with
         | true =>
           simp only [if_true]
           exact pres_trans (hrec w b g hn) (verify_pres rec hrec fs _ (hrec w b g hn).1)
@@ -557,12 +581,12 @@ theorem createW_spec {cfg W} (hc : cfg.cachesById = true) :
     | some e =>
       simp only
       have p1 := pres_fillMapper hc g (has_self hl) false
-      have hrec : ∀ w b, Good cfg W w → needsSer w b = true → Pres cfg W w (createW cfg n w b .plain).1 := by
+      have hrec : ∀ w b, Good cfg W w → needsSer cfg w b = true → Pres cfg W w (createW cfg n w b .plain).1 := by
         intro w b g hn
         exact created_pres (createW_spec hc n w b .plain g)
           (fun e hl => by simp [Entry.effFlags, needsSer_own hn e hl])
       have p2 := pres_trans p1 (verify_pres (fun w b => (createW cfg n w b .plain).1) hrec e.core.fields _ p1.1)
-      generalize hv : verifyFields (fun w b => (createW cfg n w b .plain).1) (fillMapper cfg w c e) e.core.fields = v at p2
+      generalize hv : verifyFields cfg (fun w b => (createW cfg n w b .plain).1) (fillMapper cfg w c e) e.core.fields = v at p2
       cases hok : v.2 with
       | false =>
         simp only [Bool.false_eq_true, if_false]
@@ -594,8 +618,9 @@ theorem createW_spec {cfg W} (hc : cfg.cachesById = true) :
               rw [this]
               simp [hcore1]
             · intro hr
-              have hr' : refsCreatable e = true := by simpa [refsCreatable, hcore1] using hr
-              have h1 := verify_snd (fun w b => (createW cfg n w b .plain).1) e.core.fields (fillMapper cfg w c e) hr'
+              have hr' : refsCreatable cfg e = true := by simpa [refsCreatable, hcore1] using hr
+              have h1 := verify_snd cfg (fun w b => (createW cfg n w b .plain).1) e.core.fields (fillMapper cfg w c e)
+                (refsCreatable_or hr')
               rw [hv, hok] at h1
               simpa [fastAble, hcore1] using h1.symm)
         refine ⟨g2, p2.2.2, fun d hd => (ho d hd).trans (p2.2.1 d), ?_⟩
@@ -1164,7 +1189,7 @@ structure Sim (cfg : Config) (T : ClassId → Bool) (W : List (String × TypeId)
   good' : Good cfg W w'
   /-- inside the region of the known finding: a FastSerializable class of `T` refers only to classes whose
       serializer can be generated -/
-  wf : ∀ d e, T d = true → alookup d w.classes = some e → e.core.src.fast = true → refsCreatable e = true
+  wf : ∀ d e, T d = true → alookup d w.classes = some e → e.core.src.fast = true → refsCreatable cfg e = true
   /-- the classes the fields of a class of `T` refer to are in `T` -/
   tcl : ∀ d e, T d = true → alookup d w.classes = some e → RefsIn T e.core.fields
 
@@ -1499,7 +1524,7 @@ theorem sim_run {cfg : Config} (hc : cfg.cachesById = true) {W : List (String ×
             unfold quietStep at hq1
             simp only [h1] at hq1
             have hcore := (stable_eq h3).1
-            have hq1' : refsCreatable e' = true := by simpa [refsCreatable, hcore] using hq1
+            have hq1' : refsCreatable cfg e' = true := by simpa [refsCreatable, hcore] using hq1
             rw [h1, h2, createW_snd _ fl h1 hq1, createW_snd _ fl h2 hq1']
             simp [fastAble, hcore]
         refine sim_run hc hW T h (c :: K) _ _ hs2 hcl' hq.2 ?_ ?_
